@@ -177,5 +177,28 @@ def record_case(cid, T, mods, seed, shuffle=True, origin='tlc'):
         to.compute_export_numbering(root)
         return {'num': [o.data.get('num', -1) if isinstance(o.data.get('num', -1), int) else -1
                         for o in objs]}
+    if seed % 4 == 2 and len(trees.terminals(root)) >= 2:
+        # the same tree objects, changed in place, are asked again: an answer must describe the tree as it is
+        # now (nothing may be remembered per node from the first round)
+        leaves = trees.terminals(root)
+        trees.delete_terminal(root, leaves[rnd.randrange(len(leaves))])
+        dmp2 = treeio.Dumper(atoms)
+        G2 = dmp2.dump(root)
+        objs2 = list(dmp2.objs)
+        ix2 = dmp2.idx
+        events.append({'a': 'mutate', 'res': 'ok', 'exc': '~', 'g': G2, 'by': 'delete_terminal'})
+        objs[:] = objs2
+        ix = ix2
+
+        def o0(x):
+            return 0 if x is None else ix2(x)
+        ev('children', lambda: {'out': [[ix2(c) for c in trees.children(o)] for o in objs2]})
+        ev('terminals', lambda: {'out': [[ix2(c) for c in trees.terminals(o)] for o in objs2]})
+        ev('siblings', lambda: {'right': [o0(trees.right_sibling(o)) for o in objs2],
+                                'left': [o0(trees.left_sibling(o)) for o in objs2]})
+        ev('gap_degree_node', lambda: {'out': [ta.gap_degree_node(o) for o in objs2]})
+        ev('terminal_blocks', lambda: {'out': [[[ix2(t) for t in b] for b in trees.terminal_blocks(o)]
+                                               for o in objs2]})
+        ev('gap_degree', lambda: {'out': ta.gap_degree(root)})
     ev('numbering', numbering)     # last: it overwrites data['num'] of constituents
     return {'id': cid, 'origin': origin, 'init': G, 'events': events, 'via_reader': via_reader}
